@@ -478,10 +478,53 @@ def _dataset_bodies(P: Prog):
     return out
 
 
+def effect_family_items(rng, n) -> List[Item]:
+    """a dataset, datasets derived from it with with_options / with_default_options, effects added to members of
+    the family after deriving: an effect belongs to the dataset it was added to (and to those derived from it
+    afterwards), runs once per body execution, after the callback, on the dataset's value"""
+    items = []
+    for _ in range(n):
+        P = Prog()
+        neff = [0]
+
+        def eff():
+            neff[0] += 1
+            return P.fnvalue(P.free(f"eff{neff[0]}"))
+        first = [eff() for _ in range(rng.randint(0, 2))]
+        kw = {}
+        if rng.random() < 0.5:
+            kw["callback"] = P.fnvalue(rng.choice(["pair", "tostr", "not"]), *([7] if rng.random() < 0 else []))
+            if P.node(kw["callback"])["v"]["f"] == "pair":
+                kw["callback"] = P.fnvalue("pair", 7)
+        if rng.random() < 0.3:
+            kw["cache"] = P.new_cache("nocache")
+        root = P.dataset([("a", P.option("A")), ("b", P.option("B", dflt=P.value(0)))], effects=first, **kw)
+        members = [(root, [P.node(e)["v"]["f"] for e in first])]
+        for _ in range(rng.randint(2, 5)):
+            src, effs = rng.choice(members)
+            if rng.random() < 0.5:
+                p = rng.choice([{"B": rng.choice([1, 2])}, {"A": rng.choice([5, 6])}, {"C": 1}])
+                new = P.derive(src, p, default=rng.random() < 0.4)
+                members.append((new, list(effs)))
+            else:
+                e = eff()
+                P.raw_op(op="add_effect", ds=P.ds_of(src), n=e)
+                effs.append(P.node(e)["v"]["f"])
+        recs = []
+        for o in [{"A": 1}, {"A": 1, "B": 3}, {"A": 2}]:
+            for node, effs in members:
+                P.raw_op(op="reset")
+                P.evaluate(node, o)
+                recs.append({"op": len(P.ops) - 1, "effects": list(effs)})
+        items.append((P.to_json(), {"family": recs, "bodies": {}, "repeats": []}))
+    return items
+
+
 def c02_programs(rng, tier) -> List[Item]:
     items = corpus_items("C02")
     cfg = Cfg(raising=False, all_options=False)
     items += gen_items(rng, cfg, sizes(tier, 300, 4000), hist_memo)
+    items += effect_family_items(rng, sizes(tier, 60, 600))
     return items
 
 
@@ -505,6 +548,19 @@ def c02_oracle(prog, meta, impl, model):
         eff = [c[0] for c in b.get("calls", []) if c[0] in effect_names]
         if eff:
             out.append((f"an effect ran on a cache hit ({kind})", second, {"effects": eff}))
+    for rec in meta.get("family", []):
+        a = impl[rec["op"]] if rec["op"] < len(impl) else None
+        if not is_ok(a):
+            continue
+        got = [c for c in a.get("calls", []) if c[0].startswith("eff")]
+        if [c[0] for c in got] != rec["effects"]:
+            out.append(("a cold evaluation did not run exactly the dataset's own effects, once each, in order", rec["op"],
+                        {"expected": rec["effects"], "ran": [c[0] for c in got]}))
+        for c in got:
+            if not c[1] or dumps(c[1][0]) != dumps(a["r"][1]):
+                out.append(("an effect received something other than the dataset's value", rec["op"],
+                            {"effect": c[0], "received": c[1], "value": a["r"][1]}))
+                break
     # within one evaluation: one body run per stored fingerprint, effects once per body run after it
     for i, o in enumerate(impl):
         if not is_ok(o) or prog["ops"][i].get("cache_off"):
@@ -1798,11 +1854,42 @@ def c16_programs(rng, tier) -> List[Item]:
     items += gen_items(rng, cfg, sizes(tier, 120, 1500), hist_switches)
     cfgx = Cfg(raising=False, all_options=False, templates=False, max_depth=99)
     g = gen_items(rng, cfgx, sizes(tier, 15, 150), hist_switches, n_dicts=2)
-    return items + g
+    return items + g + derived_cache_items(rng, sizes(tier, 30, 300))
+
+
+def derived_cache_items(rng, n) -> List[Item]:
+    """`dataset.nocache` (and the other cache kinds) survive `with_options` / `with_default_options`: a derived
+    dataset uses its parent's cache object, so a nocache dataset never becomes memoised by being specialised"""
+    items = []
+    for _ in range(n):
+        P = Prog()
+        kind = rng.choice(["nocache", "nocache", "memory", "scripted"])
+        root = P.dataset([("a", P.option("A")), ("b", P.option("B", dflt=P.value(0)))], cache=P.new_cache(kind))
+        body = P.node(P.node(P.ovs[-1]["dflt"])["f"])["v"]["f"]
+        bodies = _dataset_bodies(P)      # the family shares one body and one cache
+        members = [root]
+        for _ in range(rng.randint(1, 3)):
+            members.append(P.derive(rng.choice(members), rng.choice([{"B": 1}, {"A": 5}, {"C": 1}]), default=rng.random() < 0.4))
+        recs = []
+        for o in [{"A": 1}, {"A": 2, "B": 2}]:
+            for m in members + members:
+                P.evaluate(m, o)
+                if kind == "nocache":
+                    recs.append({"op": len(P.ops) - 1, "body": body})
+        items.append((P.to_json(), {"sw": [], "bodies": bodies, "nocache_runs": recs}))
+    return items
 
 
 def c16_oracle(prog, meta, impl, model):
     out = []
+    for rec in meta.get("nocache_runs", []):
+        a = impl[rec["op"]] if rec["op"] < len(impl) else None
+        if is_ok(a):
+            if not any(c[0] == rec["body"] for c in a.get("calls", [])):
+                out.append(("a dataset whose caching is switched off (nocache) was served without running its body", rec["op"],
+                            {"options": prog["ops"][rec["op"]]["o"]}))
+            if a.get("cache"):
+                out.append(("a nocache dataset read or wrote a stored entry", rec["op"], {"backend_calls": a["cache"][:4]}))
     bodies = meta.get("bodies", {})
     eff_names = {e for b in bodies.values() for e in b["effects"]}
     n_ds = len(bodies)
@@ -1860,6 +1947,7 @@ C16 = CoreProp("C16", ("eval", "trace", "cache", "log"), c16_programs, c16_oracl
 # ================================================================== C17
 
 FAULTS = ["behave", "miss", "lieExists", "failGet", "forget"]
+FAULTS_B = FAULTS + ["lieBlind"]     # a backend that answers without looking at the request
 
 
 def hist_faulty(rng, cfg, g: G, meta, n_dicts=3, exhaustive=0):
@@ -1875,7 +1963,7 @@ def hist_faulty(rng, cfg, g: G, meta, n_dicts=3, exhaustive=0):
     recs = []
     for o in fam + fam[:2]:
         for c in scripted:
-            script = [rng.choice(FAULTS) for _ in range(rng.randint(0, 10))]
+            script = [rng.choice(FAULTS_B) for _ in range(rng.randint(0, 10))]
             P.raw_op(op="script", cache=c, faults=script)
         P.evaluate(root, o)
         P.evaluate(root, o, cache_off=True, no_recording=False)
@@ -1894,6 +1982,22 @@ def c17_exhaustive(tier) -> List[Item]:
         top = P.dataset([("x", base), ("b", P.option("B", dflt=P.value(0)))], cache=c)
         recs = []
         o1, o2 = {"A": 1}, {"A": 2, "B": 5}
+        P.evaluate(top, o1)
+        P.raw_op(op="script", cache=c, faults=list(script))
+        for o in (o1, o2, o1):
+            P.evaluate(top, o)
+            P.evaluate(top, o, cache_off=True)
+            recs.append((len(P.ops) - 2, len(P.ops) - 1))
+        items.append((P.to_json(), {"faulty": recs, "script": list(script)}))
+    # the same scripts on a cached dataset used as a coalesce member (validate probes the backend before evaluate
+    # does): computable (the member's value), uncomputable (the fallback's value), warm and cold
+    for script in itertools.product(FAULTS_B, repeat=4):
+        P = Prog()
+        c = P.new_cache("scripted")
+        member = P.dataset([("a", P.option("A"))], cache=c)
+        top = P.coalesce([member, P.option("F", dflt=P.value("fallback"))])
+        recs = []
+        o1, o2 = {"A": 1}, {"F": 2}
         P.evaluate(top, o1)
         P.raw_op(op="script", cache=c, faults=list(script))
         for o in (o1, o2, o1):
